@@ -275,4 +275,136 @@ mod verif_c08 {
     untagged_harness!(c08_untagged_len3, 3);
     untagged_harness!(c08_untagged_len4, 4);
     untagged_harness!(c08_untagged_len5, 5);
+
+    // ---- tagged plain scalars: exactly the tag's type, agreeing with the untagged reading, or None ----
+    fn mk_tag(which: u8) -> Option<Tag> {
+        let core = "tag:yaml.org,2002:";
+        match which {
+            0 => None,
+            1 => Some(Tag { handle: core.into(), suffix: "int".into() }),
+            2 => Some(Tag { handle: core.into(), suffix: "float".into() }),
+            3 => Some(Tag { handle: core.into(), suffix: "bool".into() }),
+            4 => Some(Tag { handle: core.into(), suffix: "null".into() }),
+            5 => Some(Tag { handle: core.into(), suffix: "str".into() }),
+            _ => Some(Tag { handle: "!".into(), suffix: "foo".into() }),
+        }
+    }
+    fn check_tagged(s: &[u8], which: u8) {
+        let text = core::str::from_utf8(s).unwrap();
+        let tag = mk_tag(which);
+        let r = Scalar::parse_from_cow_and_metadata(Cow::Borrowed(text), ScalarStyle::Plain, tag.as_ref());
+        match which {
+            0 => assert!(r.is_some()),
+            1 => {
+                match r {
+                    None => {}
+                    Some(Scalar::Integer(i)) => assert!(core_int(s) == Some(Some(i)), "!!int value disagrees with the text"),
+                    Some(_) => panic!("!!int produced another type"),
+                }
+                // decimal numbers are always accepted under their own tag
+                if let Some(Some(v)) = core_int(s) {
+                    if !(s.len() >= 2 && s[0] == b'0' && (s[1] == b'x' || s[1] == b'o')) {
+                        assert!(matches!(r, Some(Scalar::Integer(i)) if i == v), "decimal integer rejected under !!int");
+                    }
+                }
+            }
+            2 => {
+                match r {
+                    None => {}
+                    Some(Scalar::FloatingPoint(f)) => {
+                        let c = core_float(s);
+                        assert!(c.is_some(), "!!float accepted a text that is not a core-schema number");
+                        let c = c.unwrap();
+                        assert!(c == FC::Finite || c == class_of(f.0));
+                    }
+                    Some(_) => panic!("!!float produced another type"),
+                }
+                if core_float(s).is_some() {
+                    assert!(matches!(r, Some(Scalar::FloatingPoint(_))), "decimal number rejected under !!float");
+                }
+            }
+            3 => {
+                match r {
+                    None => {}
+                    Some(Scalar::Boolean(b)) => assert!(core_bool(s) == Some(b)),
+                    Some(_) => panic!("!!bool produced another type"),
+                }
+                if s == b"true" || s == b"false" {
+                    assert!(r.is_some());
+                }
+            }
+            4 => {
+                match r {
+                    None => {}
+                    Some(Scalar::Null) => assert!(core_null(s)),
+                    Some(_) => panic!("!!null produced another type"),
+                }
+                if s == b"null" || s == b"~" {
+                    assert!(matches!(r, Some(Scalar::Null)));
+                }
+            }
+            _ => assert!(matches!(r, Some(Scalar::String(ref t)) if t.as_bytes() == s), "!!str / foreign tag must leave the string"),
+        }
+    }
+    macro_rules! tagged_harness {
+        ($name:ident, $len:expr) => {
+            #[kani::proof]
+            #[kani::unwind(20)]
+            #[kani::stub(<f64 as core::str::FromStr>::from_str, f64_from_str_stub)]
+            fn $name() {
+                let bytes: [u8; $len] = kani::any();
+                let mut i = 0;
+                while i < $len {
+                    kani::assume(in_alphabet(bytes[i]));
+                    i += 1;
+                }
+                let which: u8 = kani::any();
+                kani::assume(which >= 1 && which <= 6);
+                kani::cover!(true);
+                check_tagged(&bytes, which);
+            }
+        };
+    }
+    tagged_harness!(c08_tagged_len1, 1);
+    tagged_harness!(c08_tagged_len2, 2);
+    tagged_harness!(c08_tagged_len3, 3);
+    tagged_harness!(c08_tagged_len4, 4);
+
+    // ---- quoted and block scalars are strings with identical content; owned == borrowed -----------------
+    #[kani::proof]
+    #[kani::unwind(20)]
+    #[kani::stub(<f64 as core::str::FromStr>::from_str, f64_from_str_stub)]
+    fn c08_nonplain_and_owned() {
+        let bytes: [u8; 3] = kani::any();
+        let mut i = 0;
+        while i < 3 {
+            kani::assume(in_alphabet(bytes[i]));
+            i += 1;
+        }
+        let text = core::str::from_utf8(&bytes).unwrap();
+        let st: u8 = kani::any();
+        let style = match st {
+            0 => ScalarStyle::SingleQuoted,
+            1 => ScalarStyle::DoubleQuoted,
+            2 => ScalarStyle::Literal,
+            _ => ScalarStyle::Folded,
+        };
+        let which: u8 = kani::any();
+        kani::assume(which <= 6);
+        let tag = mk_tag(which);
+        let r = Scalar::parse_from_cow_and_metadata(Cow::Borrowed(text), style, tag.as_ref());
+        assert!(matches!(r, Some(Scalar::String(ref t)) if t.as_bytes() == &bytes[..]), "quoted/block scalar must stay a string");
+        // owned and borrowed resolve identically (plain, untagged)
+        let b = Scalar::parse_from_cow(Cow::Borrowed(text));
+        let o = ScalarOwned::parse_from_cow(Cow::Borrowed(text));
+        let same = match (&b, &o) {
+            (Scalar::Null, ScalarOwned::Null) => true,
+            (Scalar::Boolean(x), ScalarOwned::Boolean(y)) => x == y,
+            (Scalar::Integer(x), ScalarOwned::Integer(y)) => x == y,
+            (Scalar::FloatingPoint(_), ScalarOwned::FloatingPoint(_)) => true,
+            (Scalar::String(x), ScalarOwned::String(y)) => x.as_bytes() == y.as_bytes(),
+            _ => false,
+        };
+        assert!(same, "owned and borrowed scalars resolve differently");
+    }
 }
